@@ -41,7 +41,8 @@ class ScriptedRandomState(np.random.RandomState):
         self._script = script
         self._pos = 0
         self.calls = []  # (method, size)
-        self.choice_calls = []  # (values, p, picked_position)
+        self.choice_calls = []  # scalar draws: (values, p, picked_position, u)
+        self.vector_choice_calls = []  # draws with size=...: (values, p, picked_positions)
         self.unscripted = 0
 
     def _take(self, n):
@@ -89,19 +90,25 @@ class ScriptedRandomState(np.random.RandomState):
         vals = np.asarray(a)
         if vals.ndim == 0:
             vals = np.arange(int(vals))
-        if size is not None:
-            raise HarnessError("scripted choice supports size=None only")
         probs = None if p is None else np.asarray(p, dtype=float)
-        u = float(self._take(1)[0])
-        if probs is None:
-            pos = min(int(u * len(vals)), len(vals) - 1)
-        else:
-            cdf = np.cumsum(probs)
-            pos = int(np.searchsorted(cdf, u * cdf[-1], side="right"))
-            pos = min(pos, len(vals) - 1)
-        self.calls.append(("choice", None))
-        self.choice_calls.append((vals.tolist(), None if probs is None else probs.tolist(), pos, u))
-        return vals[pos]
+        shp, n = self._shape(size)
+        us = self._take(n)
+        picks = []
+        for u in us:
+            u = float(u)
+            if probs is None:
+                pos = min(int(u * len(vals)), len(vals) - 1)
+            else:
+                cdf = np.cumsum(probs)
+                pos = int(np.searchsorted(cdf, u * cdf[-1], side="right"))
+                pos = min(pos, len(vals) - 1)
+            picks.append(pos)
+        self.calls.append(("choice", size))
+        if shp is None:
+            self.choice_calls.append((vals.tolist(), None if probs is None else probs.tolist(), picks[0], float(us[0])))
+            return vals[picks[0]]
+        self.vector_choice_calls.append((vals.tolist(), None if probs is None else probs.tolist(), picks))
+        return vals[np.array(picks)].reshape(shp)
 
     # anything else = real generator, counted
     def _unscripted(name):  # noqa: N805
@@ -387,17 +394,23 @@ def stub_engine_class():
 
 
 class ScriptedCallback:
-    """Callback #k: logs the invocation, returns the planned value for (k, step)."""
+    """Callback #k: logs the invocation, returns the planned value for (k, step).
+    With ``peek`` it behaves like a validation callback: it calls predict on the estimator it is
+    handed (query rows in ctx.scratch["peek_X"]) before answering."""
 
-    def __init__(self, k, returns):
+    def __init__(self, k, returns, peek=False):
         self.k = k
         self.returns = returns  # dict: str(step) -> value; default None
+        self.peek = peek
 
     def __call__(self, *args, **kwargs):
         ctx = kernel.current()
         step = kwargs.get("step")
         val = self.returns.get(str(step))
         ctx.callback_log.append((self.k, step))
+        if self.peek and args and ctx.scratch.get("peek_X") is not None:
+            args[0].predict(ctx.scratch["peek_X"])
+            ctx.fault("callback_peek")
         ctx.event("callback", k=self.k, step=step, ret=val)
         if val is True:
             ctx.fault("callback_stop")
